@@ -27,6 +27,7 @@ package connprop
 import (
 	"fmt"
 	"strings"
+	"time"
 )
 
 // Scenario is one generated case.
@@ -64,6 +65,31 @@ type Scenario struct {
 //	       conn.dial.result for its address first if it originated the pending dial.
 //	open   release the I-th goroutine parked at a gate.
 //
+// Things that happen to a handed-out connection OUTSIDE the manager, and holders
+// that misbehave within what the API permits (candidates = requests that were
+// handed a connection, released or not; W picks the class of candidate that is
+// preferred, I the candidate):
+//
+//	xclose the requester calls Close() on the *grpc.ClientConn it was handed.
+//	       W 0: one that still holds it; 1: one that already released it while
+//	       another holder remains; 2: any (e.g. a connection forgotten long ago).
+//	       The harness records the call before it is made: a connection the
+//	       scenario closed is excused from "never SHUTDOWN while held", everything
+//	       else (sharing per hand-out, closed and forgotten at the last release,
+//	       releases of one hand-out never touch another) is demanded as before.
+//	xcon   conn.Connect() on a handed-out connection whose transport dialer
+//	       behaves as M from now on (0: refuses at once -> TRANSIENT_FAILURE,
+//	       1: hangs -> CONNECTING, 2: reaches an in-bubble gRPC server -> READY).
+//	xreset conn.ResetConnectBackoff().
+//	xdrop  the server side drops the transports of a handed-out connection
+//	       (READY -> IDLE).
+//	tick   virtual time advances by Dur (0: 1s, 1: 3s, 2: 25s, 3: 31min; back-off,
+//	       connect timeout and idle timers of gRPC fire).
+//
+// rel/rel2/relf with N > 0: the done func is called from 1+N goroutines started
+// together. acq F=3 / fin X: the dial function hands back a connection that it
+// has closed itself.
+//
 // An acq step that finds every thread inside a call acts as open (if something
 // is parked at a gate) or else as fin; a rel step that finds no unreleased
 // handle acts as fin (ok) or else as open. The history printed with a failure
@@ -81,6 +107,11 @@ type Step struct {
 	OK  bool   `json:"ok,omitempty"`
 	All bool   `json:"all,omitempty"`
 	I   int    `json:"i,omitempty"`
+	W   int    `json:"w,omitempty"`
+	M   int    `json:"m,omitempty"`
+	Dur int    `json:"dur,omitempty"`
+	N   int    `json:"n,omitempty"`
+	X   bool   `json:"x,omitempty"`
 }
 
 func (s Step) String() string {
@@ -107,11 +138,16 @@ func (s Step) String() string {
 			f = append(f, "dial-returns-ok-at-once")
 		case 2:
 			f = append(f, "dial-returns-error-at-once")
+		case 3:
+			f = append(f, "dial-returns-at-once-a-connection-it-closed-itself")
 		}
 	case "fin":
 		out := "error"
 		if s.OK {
 			out = "ok"
+		}
+		if s.OK && s.X {
+			out = "ok-but-closed-by-the-dial-function"
 		}
 		f = append(f, fmt.Sprintf("fin #%d %s", s.I, out))
 		if s.G {
@@ -122,10 +158,19 @@ func (s Step) String() string {
 		if s.G {
 			f = append(f, "gate:"+pointDialResult)
 		}
+	case "xclose":
+		f = append(f, fmt.Sprintf("xclose #%d pref%d", s.I, s.W))
+	case "xcon":
+		f = append(f, fmt.Sprintf("xcon #%d net:%s", s.I, netModeName(s.M)))
+	case "tick":
+		f = append(f, "tick "+tickOfStep(s.Dur).String())
 	default:
 		f = append(f, fmt.Sprintf("%s #%d", s.K, s.I))
 		if s.All {
 			f = append(f, "all-holders")
+		}
+		if s.N > 0 {
+			f = append(f, fmt.Sprintf("from-%d-goroutines", 1+s.N))
 		}
 	}
 	return strings.Join(f, " ")
@@ -135,5 +180,25 @@ const (
 	pointDialResult = "conn.dial.result"
 	pointWait       = "conn.wait"
 )
+
+const (
+	netRefuse = iota
+	netHang
+	netServe
+)
+
+func netModeName(m int) string {
+	switch mod(m, 3) {
+	case netRefuse:
+		return "refuse"
+	case netHang:
+		return "hang"
+	}
+	return "serve"
+}
+
+var tickDurations = []time.Duration{time.Second, 3 * time.Second, 25 * time.Second, 31 * time.Minute}
+
+func tickOfStep(d int) time.Duration { return tickDurations[mod(d, len(tickDurations))] }
 
 func addrName(i int) string { return fmt.Sprintf("a%d", i) }
